@@ -6,7 +6,7 @@ declared shape is compared with the shape jnp.concatenate / jnp.stack / vmap pro
 import z3
 
 from fjvc.core import family
-from fjvc.interp import Obj, obj_fields
+from fjvc.interp import Obj, obj_fields, PyRaise
 from fjvc.values import SV, SymTuple, IntSeq, lift, I
 
 from .abstract import AbsBij, BIJ
@@ -307,6 +307,26 @@ def partial_check(ctx):
 
     made = []
     it.lib.overrides["jax.numpy.zeros"] = lambda shape, **k: made.append(Zeros(shape)) or made[-1]
+    # T3 numpy: np.add.at(counts, idxs, 1) raises IndexError iff the index does not fit the shape (jax would clamp it silently);
+    # afterwards counts.max() is the largest number of times one element is selected
+    FITS, MAXC = z3.Bool("index_fits_the_shape"), z3.Int("max_times_an_element_is_indexed")
+
+    class Counts:
+        def __init__(self, shape):
+            self.shape_arg = shape
+
+        def max(self, *a, **k):
+            return SV(MAXC)
+
+    def add_at(arr, idx, v):
+        if not (isinstance(arr, Counts) and idx == "idxs"):
+            raise Untranslatable("np.add.at on something other than the index counter")
+        if not it.truth(SV(FITS)):
+            raise PyRaise("IndexError", "index out of bounds")
+
+    from fjvc.interp import Untranslatable
+    it.lib.overrides["numpy.zeros"] = lambda shape, *a, **k: Counts(shape)
+    it.lib.overrides["numpy.add.at"] = add_at
     shp = SymTuple(Seq("shape"))
     o = Obj(cls, bijection=AbsBij(z3.Const("b", BIJ), shape=SymTuple(child)), idxs="idxs", shape=shp)
     paths = it.explore(lambda: cls.lookup("__check_init__")(o))
@@ -317,8 +337,69 @@ def partial_check(ctx):
         raise Untranslatable("Partial.__check_init__ computes the indexed shape in a way the contract does not model")
     for i, p in enumerate(ok):
         ctx.oblige(f"C13/Partial.__check_init__/post/accepted_only_if_child_shape_is_the_indexed_shape#{i}", child == sub, p.cond, props, fn=q + ".__check_init__", replay=dict(kind="shapes", cls="Partial", vars={}))
+        ctx.oblige(f"C13/Partial.__check_init__/post/accepted_only_if_the_index_set_fits#{i}", z3.And(FITS, MAXC <= 1), p.cond, props, fn=q + ".__check_init__", replay=dict(kind="shapes", cls="Partial", vars={}),
+                   note="every index in range and no element selected twice (jax indexing would clamp / merge silently)")
     for i, p in enumerate(bad):
-        ctx.oblige(f"C13/Partial.__check_init__/post/raises_only_on_mismatch#{i}", z3.And(child != sub, z3.BoolVal(p.value.exc == "ValueError")), p.cond, props, fn=q + ".__check_init__", replay=dict(kind="shapes", cls="Partial", vars={}))
+        ctx.oblige(f"C13/Partial.__check_init__/post/raises_only_on_mismatch#{i}", z3.And(z3.Or(child != sub, z3.Not(FITS), MAXC > 1), z3.BoolVal(p.value.exc in ("ValueError", "IndexError"))), p.cond, props, fn=q + ".__check_init__", replay=dict(kind="shapes", cls="Partial", vars={}))
+
+
+@family("shapes/Partial.__check_init__[integer_index]", ["C13", "C08", "C02"])
+def partial_check_integer_index(ctx):
+    """`an index set that does not fit Partial` is rejected: an integer index into a rank-1 shape (n,) is accepted only if it is in
+    range (-n <= i < n).  T3 as MEASURED: jnp.zeros((n,))[i] never raises (jax clamps out-of-range indices) and has shape ();
+    numpy indexing (np.zeros / np.add.at / x[i]) raises IndexError for an out-of-range index."""
+    it = ctx.interp
+    props = ["C13", "C08", "C02"]
+    q = "flowjax.bijections.utils.Partial"
+    cls = it.repo_class(q)
+    n, i = z3.Ints("n i")
+    inb = z3.And(i >= -n, i < n)
+
+    class JaxZeros:  # jnp.zeros(shape)
+        def __init__(self, shape):
+            self.shape = shape
+
+        def __getitem__(self, idx):
+            class Rz:
+                shape = ()
+            return Rz()
+
+    class NpArray:  # np.zeros(shape, dtype): numpy semantics
+        def __init__(self, shape):
+            self.shape, self.hits = shape, 0
+
+        def _check(self, idx):
+            if not it.truth(SV(z3.And(lift(idx) >= -n, lift(idx) < n))):
+                raise PyRaise("IndexError", "index out of bounds")
+
+        def __getitem__(self, idx):
+            self._check(idx)
+            return NpArray(())
+
+        def max(self, *a, **k):
+            return SV(z3.IntVal(self.hits))
+
+        def sum(self, *a, **k):
+            return SV(z3.IntVal(self.hits))
+
+    def add_at(arr, idx, v):
+        arr._check(idx)
+        arr.hits += 1
+
+    lib = it.lib.overrides
+    lib["jax.numpy.zeros"] = lambda shape, *a, **k: JaxZeros(shape)
+    lib["numpy.zeros"] = lambda shape, *a, **k: NpArray(shape)
+    lib["numpy.add.at"] = add_at
+    o = Obj(cls, bijection=AbsBij(z3.Const("b", BIJ), shape=()), idxs=SV(i), shape=(SV(n),))
+    paths = it.explore(lambda: cls.lookup("__check_init__")(o))
+    ok, bad = by_outcome(paths)
+    fq = q + ".__check_init__"
+    rp = dict(kind="shapes", cls="Partial", vars=dict(n=n, i=i))
+    ctx.oblige("C13/Partial.__check_init__[integer_index]/struct/has_success_path", len(ok) >= 1, [], props, kind="struct", fn=fq)
+    for k_, p in enumerate(ok):
+        ctx.oblige(f"C13/Partial.__check_init__[integer_index]/post/accepted_only_if_the_index_is_in_range#{k_}", inb, p.cond + [n >= 1], props, fn=fq, replay=rp)
+    for k_, p in enumerate(bad):
+        ctx.oblige(f"C13/Partial.__check_init__[integer_index]/post/raises_only_if_out_of_range#{k_}", z3.Not(inb), p.cond + [n >= 1], props, fn=fq, replay=rp)
 
 
 @family("shapes/declared_shapes_of_wrappers", ["C08", "C13"])
